@@ -88,15 +88,24 @@ def check(repo: Repo, R) -> None:
     notfound = False
     KEY = None
     for n in au.walk_no_nested(fw.node):
-        if isinstance(n, ast.If) and pat.match("$K in conns", n.test) is not None:
-            KEY = ast.unparse(pat.match("$K in conns", n.test)["K"])
-            cur = n
-            while len(cur.orelse) == 1 and isinstance(cur.orelse[0], ast.If):
-                cur = cur.orelse[0]
-            notfound = au.raises(cur.orelse)
+        if isinstance(n, ast.If) and KEY is None:
+            for x in ast.walk(n.test):
+                if isinstance(x, ast.Compare) and len(x.ops) == 1 and isinstance(x.ops[0], (ast.In, ast.NotIn)) and ast.unparse(x.comparators[0]) == "conns":
+                    KEY = ast.unparse(x.left)
+                    break
     if KEY is None:
         raise AnalysisError(f"idiom-unknown: lookup of the connected signal's name in the parent's map not found in {fw.site}")
     key_is_name = shared.prov_text(fw.node, ast.parse(KEY, mode="eval").body) == "sig.name"
+    # what is handed to the child for each of its ports, as alternatives: (value, conditions)
+    child_stores = pat.find("new_conns[src_port_name] = $T", fw.node)
+    alts = []
+    for c, b in child_stores:
+        alts += shared.alternatives(fw.node, b["T"], list(path_conditions(fw.node, c)))
+    in_conns = shared.parse_cond(f"{KEY} in conns")
+    in_sigs = shared.parse_cond(f"{KEY} in m.signals")
+    in_ports = shared.parse_cond(f"{KEY} in m.ports")
+    # a name found in none of the three raises
+    notfound = shared.raises_under(fw.node, [(f"{KEY} in conns", False), (f"{KEY} in m.signals", False), (f"{KEY} in m.ports", False), ("isinstance(sig, h.Signal)", True), (f"':' in {KEY}", False), ("':' in (inst.name or '')", False)])
     R.check(notfound, rule, key_of(fw, "unknown-signal"), fw.site, f"a connection to a signal found neither in the parent's map nor in the module raises: {notfound}", why="an unknown net silently becomes a new floating net")
 
     # ---- 3 generated names unique
@@ -128,7 +137,10 @@ def check(repo: Repo, R) -> None:
     lp = [n for n in au.walk_no_nested(ff.node) if isinstance(n, ast.For) and ast.unparse(n.iter) == "m.ports.values()"]
     ok = len(lp) == 1 and bool(pat.find("new_module.add(copy.copy(port))", lp[0]))
     R.check(ok, rule, key_of(ff, "ports"), ff.site, f"the flat module gets a copy of each of m's ports, in order: {ok}", why="ports are missing, reordered or re-directed in the flat module")
-    internal = all(bool(shared.calls_matching(fw.node, f"replace(_copy_to_internal(m.{k}[{KEY}]), name=':'.join([$P.name for $P in parents] + [{KEY}]))")) for k in ("signals", "ports"))
+    NAME = f"':'.join([$P.name for $P in parents] + [{KEY}])"
+    def _alt_is(v, k):
+        return pat.match(f"replace(_copy_to_internal(m.{k}[{KEY}]), name={NAME})", shared.prov(fw.node, v)) is not None
+    internal = all(any(_alt_is(v, k) for v, _c in alts) for k in ("signals", "ports")) and all(ast.unparse(v) == f"conns[{KEY}]" or _alt_is(v, "signals") or _alt_is(v, "ports") for v, _c in alts)
     R.check(internal, rule, key_of(fw, "nets-internal"), fw.site, f"nets created for lower levels are internal copies (visibility INTERNAL, no direction) of the declaring signal or port: {internal}", why="a lower-level port becomes a port of the flat module")
     sk = any(shared.cond_match(ff.node, c, "$S.name in new_module.ports", False, use_prov=True) and ast.unparse(shared.cond_args(ff.node, c, "$S.name in new_module.ports", False)["S"]) == ast.unparse(b["S"]) for c, b in pat.find("new_module.add(copy.copy($S))", ff.node) if enclosing(ff.node, c, (ast.For,)) is not None and ast.unparse(enclosing(ff.node, c, (ast.For,)).iter) != "m.ports.values()")
     R.check(sk, rule, key_of(ff, "no-port-shadowing"), ff.site, f"nets that are ports of the flat module are not re-added as internal signals: {sk}", why="a port is replaced by an internal signal of the same name")
@@ -137,12 +149,13 @@ def check(repo: Repo, R) -> None:
 
     # ---- 5 port map / reconnect by name
     rule = "C16.5-connectivity-by-map"
-    order_ok = False
-    for n in au.walk_no_nested(fw.node):
-        if isinstance(n, ast.If) and ast.unparse(n.test) == f"{KEY} in conns":
-            order_ok = pat.match(f"$T = conns[{KEY}]", n.body[-1]) is not None and len(n.orelse) == 1 and isinstance(n.orelse[0], ast.If) and ast.unparse(n.orelse[0].test) == f"{KEY} in m.signals"
+    # whenever the parent's map has the name, the child gets the parent's net; a fresh internal copy is made only otherwise
+    order_ok = bool(alts) and any(ast.unparse(v) == f"conns[{KEY}]" and shared.conds_imply(cds, [(in_conns, True)]) is True for v, cds in alts) and all(
+        ast.unparse(v) == f"conns[{KEY}]" or shared.conds_imply(cds, [(in_conns, False)]) is True for v, cds in alts) and all(
+        shared.conds_imply(cds, [(in_conns, True)]) is True for v, cds in alts if ast.unparse(v) == f"conns[{KEY}]") and all(
+        shared.conds_imply(cds, [(in_sigs, True)]) is True for v, cds in alts if _alt_is(v, "signals")) and all(shared.conds_imply(cds, [(in_ports, True)]) is True for v, cds in alts if _alt_is(v, "ports"))
     R.check(order_ok, rule, key_of(fw, "parent-map-first"), fw.site, f"a child's port is resolved through the map handed down by its parent before the child's own signals: {order_ok}", why="a child's port is treated as a new internal net: the connection across the hierarchy level is cut")
-    store = bool(pat.find("new_conns[src_port_name] = $T", fw.node))
+    store = bool(child_stores)
     lp = [n for n in au.walk_no_nested(fw.node) if isinstance(n, ast.For) and ast.unparse(n.iter) == "inst.conns.items()"]
     tot = len(lp) == 1 and not any(isinstance(x, (ast.Break, ast.Continue)) for x in ast.walk(lp[0]))
     R.check(store and tot, rule, key_of(fw, "child-map"), fw.site, f"every connection of an instance is entered in the map handed to its target under the target's port name: {store and tot}", why="some ports of a sub-module are cut off from their parent net")
@@ -165,6 +178,12 @@ def check(repo: Repo, R) -> None:
     frets = shared.returns_of(fs.node)
     ok = {shared.prov_text(fs.node, r.value) for r in frets} == {"m.ports.get(name)", "m.signals.get(name)"} and len(shared.raising_leaves(fs.node)) >= 1 and all(
         shared.conds_imply(path_conditions(fs.node, r), [(shared.parse_cond(shared.prov_text(fs.node, r.value) + " is None"), False)]) is True or shared.cond_match(fs.node, r, shared.prov_text(fs.node, r.value) + " is None", False) for r in frets)
+    if not ok:
+        # the same search as a loop over the two namespaces: `for ns in (m.ports, m.signals): x = ns.get(name); if x is not None: return x`, then raise
+        for lp_ in [n for n in fs.node.body if isinstance(n, ast.For)]:
+            if isinstance(lp_.iter, (ast.Tuple, ast.List)) and {ast.unparse(e) for e in lp_.iter.elts} == {"m.ports", "m.signals"} and isinstance(lp_.target, ast.Name) and not lp_.orelse:
+                rr = [r for r in shared.returns_of(fs.node) if any(x is r for x in ast.walk(lp_))]
+                ok = len(rr) == 1 and len(frets) == 1 and shared.prov_text(fs.node, rr[0].value) == f"{lp_.target.id}.get(name)" and shared.cond_match(fs.node, rr[0], f"{lp_.target.id}.get(name) is None", False) and au.raises(fs.node.body)
     R.check(ok, rule, key_of(fs), fs.site, f"nets are found by exact name among ports and signals, else it raises: {ok}", why="a missing net silently connects to None")
     R.floor("C16.1-leaf-kinds-agree", 3)
     R.floor("C16.3-generated-names-unique", 4)
